@@ -46,16 +46,16 @@ Theorem C06_evaluate_as_fresh :
 Proof. exact eval_fresh. Qed.
 Print Assumptions C06_evaluate_as_fresh.
 
-(* T3: the second derivative requested after a successful evaluation of the
-   current trial is the one freshly built objects return. *)
+(* T3: the second derivative requested after an evaluation of the current trial
+   — whether that evaluation returned a value or raised (fix 0119791) — is the
+   one freshly built objects return for [initialise trial d; evaluate;
+   second derivative]. *)
 Theorem C06_ns_grad2_as_fresh :
   forall (W : world) (C : cfg),
     (forall x y, glow W x = glow W y -> gup W x = gup W y) ->
     forall (s0 : src W) (pre : list (op W)) (d : data W) (mid : list (op W)) (ns x : Z)
-           (tail : list (op W)) (n : Z) (out : Out W),
+           (tail : list (op W)) (n : Z),
       forallb (is_query W) mid = true -> forallb (is_ns2 W) tail = true ->
-      last (observations W C (init W C (src_after W s0 pre))
-              [InitTrial W d; Evaluate W ns x]) (ONone W) = OEval W (Ok out) ->
       last (observations W C (init W C s0)
               (pre ++ InitTrial W d :: (mid ++ Evaluate W ns x :: tail) ++ [NsGrad2 W n])) (ONone W) =
       last (observations W C (init W C (src_after W s0 pre))
@@ -159,16 +159,7 @@ Theorem C06_i3_ratio_cache_refines_full :
 Proof. exact i3refines. Qed.
 Print Assumptions C06_i3_ratio_cache_refines_full.
 
-(* The two guards of T2 / T3 are necessary for the code as it is: *)
-Theorem C06_ns_grad2_after_failed_evaluate_refuted :
-  exists (W : world) (C : cfg) (s0 : src W) (d : data W) (ns x ns' x' n : Z),
-    last (observations W C (init W C s0)
-            [InitTrial W d; Evaluate W ns x; Evaluate W ns' x'; NsGrad2 W n]) (ONone W)
-    <> last (observations W C (init W C s0)
-            [InitTrial W d; Evaluate W ns' x'; NsGrad2 W n]) (ONone W).
-Proof. exact ns2_after_failed_evaluate_refuted. Qed.
-Print Assumptions C06_ns_grad2_after_failed_evaluate_refuted.
-
+(* The remaining guard of T2 / T3 (a source change is followed by a new trial) is necessary for the code as it is: *)
 Theorem C06_source_change_without_new_trial_refuted :
   exists (W : world) (C : cfg) (s0 s1 : src W) (d : data W) (ns x : Z),
     last (observations W C (init W C s0)
@@ -281,3 +272,14 @@ Example C06_nonvacuous_i3 :
                                  InitTrial W 2; Evaluate W 5 225])
   = [([], 0); ([TF 200; TP 200; TF 300; TP 300], 0); ([], 0); ([], 0); ([], 1); ([TF 200; TP 200; TF 300; TP 300], 1)].
 Proof. vm_compute. reflexivity. Qed.
+
+(* after an evaluation that raised (grid value without PDF) the second
+   derivative raises, on used objects as on fresh ones (fix 0119791) *)
+Example C06_ns_grad2_after_failed_evaluate :
+  let W := wfree 100 100 100 400 in
+  let C := mkcfg 0 0 0 true false 0 false in
+  last (observations W C (init W C 7) [InitTrial W 1; Evaluate W 5 250; Evaluate W 5 950; NsGrad2 W 5]) (ONone W)
+    = ONs2 W (Err RuntimeError) /\
+  last (observations W C (init W C 7) [InitTrial W 1; Evaluate W 5 950; NsGrad2 W 5]) (ONone W)
+    = ONs2 W (Err RuntimeError).
+Proof. split; vm_compute; reflexivity. Qed.
